@@ -960,11 +960,23 @@ impl Rig {
         QC { votes, ..qc }
     }
 
+    /// The digest a timeout for (round, high-QC round) is signed over -- computed by the code under test, so that a change
+    /// of the digest layout in the repository is followed instead of producing invalid signatures here.
+    pub fn timeout_digest(round: u64, hqr: u64) -> Digest {
+        Timeout {
+            high_qc: QC { hash: Digest::default(), round: hqr, votes: Vec::new() },
+            round,
+            author: PublicKey::default(),
+            signature: Signature::default(),
+        }
+        .digest()
+    }
+
     pub fn make_tc(&self, round: u64, entries: &[(usize, u64)]) -> TC {
         let votes = entries
             .iter()
             .map(|(i, hqr)| {
-                let d = sha(&[&round.to_le_bytes(), &hqr.to_le_bytes()]);
+                let d = Self::timeout_digest(round, *hqr);
                 (self.keys[*i].0, self.sign(*i, &d), *hqr)
             })
             .collect();
